@@ -1,5 +1,6 @@
 """C06 -- returned coordinates reproduce the file's tie points over the whole globe."""
 import datetime
+import random
 import warnings
 from fractions import Fraction
 
@@ -86,7 +87,8 @@ def part_a(res, rng, tier, seed, coq):
                 start = datetime.datetime(year, 3, 4, 5, 6, 7)
                 flagged = [rng.random() < 0.15 for _ in range(n)]
                 lines = l1b.default_lines(fmt, n, start, qual=[(1 << 31) if f else 0 for f in flagged],
-                                          latlon=lambda i: ([w / float(scale) for w in rows[i][1]], [w / float(scale) for w in rows[i][0]]))
+                                          latlon=lambda i: ([w / float(scale) for w in rows[i][1]], [w / float(scale) for w in rows[i][0]]),
+                                          noise=random.Random(rng.getrandbits(32)))   # every other field of the records: random bytes
                 for i, ln in enumerate(lines):      # the words themselves, not a rounding of a float
                     ln["lats"], ln["lons"] = list(rows[i][1]), list(rows[i][0])
                 data = l1b.build_file(fmt, sc, start, lines)
@@ -235,7 +237,8 @@ def part_c(res, rng, tier, seed, d):
                                              tle_name=tle_name, tle_thresh=40000)
                     tlon, tlat = truth_positions(probe, times_us, tie_pos)
                     plon, plat = truth_positions(probe, times_us, pix_pos)
-                    lines = l1b.default_lines(fmt, n, start, latlon=lambda i: (list(tlat[i]), list(tlon[i])))
+                    lines = l1b.default_lines(fmt, n, start, latlon=lambda i: (list(tlat[i]), list(tlon[i])),
+                                              noise=(random.Random(rng.getrandbits(32)) if n < 1000 else None))
                     r = impl.open_reader(fmt, l1b.build_file(fmt, sc, start, lines), adjust_clock_drift=False)
                     lons, lats = r.get_lonlat()
             except Exception as e:  # noqa
